@@ -29,7 +29,9 @@ class CombineStartswithEndswith(CombineCallsBaseCodemod):
                     | m.SimpleString()
                     | m.ConcatenatedString()
                     | m.FormattedString()
-                    | m.Name()
+                    | m.Name(),
+                    # not `*args`: an unpacked argument is not one prefix
+                    star="",
                 )
             ],
         )
